@@ -194,8 +194,33 @@ Definition run_genpayload (a : sx) : sx :=
       let lp := lifetime_or_default lt defaultLifeTimePayload in
       let p := generate_payload hm secret (repeat 7%N 8) lp nominal_now in
       let ok s := match check_payload hm s lp nominal_now p with Ok true => true | _ => false end in
-      SL [SB (Nat.eqb (List.length p) 64); SB true; SB (ok secret); SB (ok other)]
+      (* the time field read back from the payload: acceptance ends lp seconds after it *)
+      let stored := match hex_decode p with Some b => to_int64 (be_val (firstn 8 (skipn 8 b))) | None => 0%Z end in
+      let until := ((stored + lp) * giga)%Z in
+      SL [SB (Nat.eqb (List.length p) 64); SB true; SB (ok secret); SB (ok other);
+          SB (until <=? nominal_now + lp * giga + lp)%Z; SB (nominal_now + lp * giga - giga <? until)%Z]
   | _ => sx_err "c19.genpayload"
+  end.
+
+(* c19.expire: (lifetime wait_ms): GeneratePayload at the nominal clock, CheckPayload and CheckProof
+   (fresh honest proof over that payload) wait_ms later *)
+Definition run_expire (a : sx) : sx :=
+  match a with
+  | SL [SZ lt; SZ wait] =>
+      let hm : bytes -> bytes -> bytes := fun _ m => firstn 32 (m ++ m ++ m) in
+      let secret := [1%N] in
+      let lp := lifetime_or_default lt defaultLifeTimePayload in
+      let payload := generate_payload hm secret (repeat 7%N 8) lp nominal_now in
+      let nowc := (nominal_now + wait * 1000000)%Z in
+      let key := repeat 9%N 32 in
+      let tp := mkProof (to_raw 0 (repeat 5%N 32)) (nowc / giga)%Z [100%N] [] payload [] in
+      let okp := match check_payload hm secret lp nowc payload with Ok true => true | _ => false end in
+      let r := check_proof (fun x => x) (fun _ _ _ => true) (fun _ => Some []) (fun _ => Err EOther)
+                 (fun _ => false) (fun _ => false) [] (fun _ => ExRet 0 [StInt (be_val key)])
+                 (check_payload hm secret lp nowc) (static_domain [100%N])
+                 defaultLifeTimeProof nowc tp in
+      SL [SB okp; SB (match r with Ok _ => true | _ => false end)]
+  | _ => sx_err "c19.expire"
   end.
 
 (* c19.clock: (ltproof ltpayload dproof dpayload usegen): everything is built by the model at
@@ -232,5 +257,6 @@ Definition run (name : string) (a : sx) : sx :=
   else if is "c19.check" then run_check a
   else if is "c19.hist" then run_hist a
   else if is "c19.genpayload" then run_genpayload a
+  else if is "c19.expire" then run_expire a
   else if is "c19.clock" then run_clock a
   else sx_err "unknown case kind".
